@@ -116,7 +116,11 @@ fn serve_sdo(d: &mut Device, req: &[u8], cnt: u8) -> Option<Vec<u8>> {
                 }
             };
 
-            let (rindex, rsub) = if obj.behaviour == ObjBehaviour::WrongIndex { (index.wrapping_add(1), sub) } else { (index, sub) };
+            let (rindex, rsub) = match obj.behaviour {
+                ObjBehaviour::WrongIndex => (index.wrapping_add(1), sub),
+                ObjBehaviour::WrongSubIndex => (index, sub.wrapping_add(1)),
+                _ => (index, sub),
+            };
             let mbx = d.read_mailbox_len();
             let fits_normal = 16 + data.len() <= mbx;
 
@@ -125,23 +129,32 @@ fn serve_sdo(d: &mut Device, req: &[u8], cnt: u8) -> Option<Vec<u8>> {
             let policy_applies = index >= 0x2000;
             let small = !data.is_empty() && data.len() <= 4;
 
+            let cflag = if complete { 0x10 } else { 0 };
+
             let segmented_sizes = match &d.spec.upload {
-                UploadPolicy::Segmented(s) if policy_applies && !s.is_empty() && !data.is_empty() && mbx >= 16 => Some(s.clone()),
-                _ if !fits_normal && !small => Some(vec![(mbx.saturating_sub(9)) as u16]),
+                UploadPolicy::Segmented(s) if policy_applies && !s.is_empty() && !data.is_empty() && mbx >= 16 => Some((0usize, s.clone())),
+                UploadPolicy::SegmentedInitData(first, s) if policy_applies && !s.is_empty() && data.len() >= 2 && mbx >= 17 => {
+                    // at least one byte must be left for the segments
+                    Some((usize::from(*first).clamp(1, (mbx - 16).min(data.len() - 1)), s.clone()))
+                }
+                _ if !fits_normal && !small => Some((0, vec![(mbx.saturating_sub(9)) as u16])),
                 _ => None,
             };
 
-            if let Some(_sizes) = segmented_sizes {
-                // Segmented: init response announces the complete size and carries no data
-                let mut r = mbx_header(10, cnt);
+            if let Some((first, _sizes)) = segmented_sizes {
+                // Segmented: the initiate response announces the complete size and carries the
+                // first `first` bytes (possibly none)
+                let mut r = mbx_header(10 + first, cnt);
 
                 r.extend_from_slice(&coe_header(3));
                 r.push((2 << 5) | 0x01);
                 r.extend_from_slice(&rindex.to_le_bytes());
                 r.push(rsub);
                 r.extend_from_slice(&(data.len() as u32).to_le_bytes());
+                r.extend_from_slice(&data[..first]);
 
-                *d.segmented_state() = Some((data, false, 0));
+                *d.segmented_state() = Some((data[first..].to_vec(), false, 0));
+                d.stats.upload_kinds.push(2 | cflag);
 
                 return Some(r);
             }
@@ -149,6 +162,8 @@ fn serve_sdo(d: &mut Device, req: &[u8], cnt: u8) -> Option<Vec<u8>> {
             let expedited = small && !(policy_applies && d.spec.upload == UploadPolicy::PreferNormal && fits_normal);
 
             if expedited || (data.is_empty() && !fits_normal) {
+                d.stats.upload_kinds.push(cflag);
+
                 let mut r = mbx_header(10, cnt);
 
                 r.extend_from_slice(&coe_header(3));
@@ -163,6 +178,8 @@ fn serve_sdo(d: &mut Device, req: &[u8], cnt: u8) -> Option<Vec<u8>> {
 
                 Some(r)
             } else {
+                d.stats.upload_kinds.push(1 | cflag);
+
                 let mut r = mbx_header(10 + data.len(), cnt);
 
                 r.extend_from_slice(&coe_header(3));
@@ -180,7 +197,7 @@ fn serve_sdo(d: &mut Device, req: &[u8], cnt: u8) -> Option<Vec<u8>> {
             let toggle = cmd & 0x10 != 0;
             let mbx = d.read_mailbox_len();
             let sizes = match &d.spec.upload {
-                UploadPolicy::Segmented(s) if !s.is_empty() => s.clone(),
+                UploadPolicy::Segmented(s) | UploadPolicy::SegmentedInitData(_, s) if !s.is_empty() => s.clone(),
                 _ => vec![(mbx.saturating_sub(9)) as u16],
             };
 
@@ -256,7 +273,11 @@ fn serve_sdo(d: &mut Device, req: &[u8], cnt: u8) -> Option<Vec<u8>> {
 
                     o.subs[usize::from(sub)] = data;
 
-                    if o.behaviour == ObjBehaviour::WrongIndex { (index.wrapping_add(1), sub) } else { (index, sub) }
+                    match o.behaviour {
+                        ObjBehaviour::WrongIndex => (index.wrapping_add(1), sub),
+                        ObjBehaviour::WrongSubIndex => (index, sub.wrapping_add(1)),
+                        _ => (index, sub),
+                    }
                 }
                 None => return Some(abort_reply(cnt, index, sub, ABORT_NO_OBJECT)),
             };
